@@ -1,3 +1,64 @@
+/-
+  C09 — parse() accepts only well-formed in-range input (model level; strptime is a parameter).
+-/
 import Cctz.Model.Parse
+import Cctz.Spec.FormatSpec
+import Cctz.Spec.PosixGrammar
+import Cctz.Proofs.ParseLemmas
+
 namespace Cctz.C09
+open Cctz Cctz.Bytes Cctz.Format Cctz.Parse Cctz.Spec
+
+/-- the integer reader: on success the value is the decimal value of the digits it consumed (with
+sign), lies in [min, max], at least one digit was consumed, and at most `width` characters when a
+width is given -/
+def parseInt_statement : Prop :=
+  ∀ (kmin : Int) (dp rest : Bytes) (width min max v : Int), kmin < 0 →
+    parseInt kmin dp width min max = some (rest, v) →
+    min ≤ v ∧ v ≤ max ∧ kmin < v ∧ v ≤ -(kmin + 1) ∧
+    ∃ used : Bytes, dp = used ++ rest ∧ used ≠ [] ∧ (width > 0 → (used.length : Int) ≤ width) ∧
+      ((∃ ds, used = ds ∧ ds ≠ [] ∧ (∀ c ∈ ds, isDigit c = true) ∧ v = numVal ds) ∨
+       (∃ ds, used = 45 :: ds ∧ ds ≠ [] ∧ (∀ c ∈ ds, isDigit c = true) ∧ v = -numVal ds ∧ v ≠ 0))
+
+/-- every numeric field a successful parse accepted lies in its documented range (the bounds are
+those extracted from the C++ on every run) -/
+def field_ranges_statement : Prop :=
+  ∀ (sp : Strptime) (fmt input : Bytes) (z : Tz.Zone) (sec fsv : Int),
+    (parse sp fmt input z).val.1 = .ok sec fsv →
+    ∀ c v, (c, v) ∈ (parse sp fmt input z).val.2.fields →
+      (c = 109 → 1 ≤ v ∧ v ≤ 12) ∧ ((c = 100 ∨ c = 101) → 1 ≤ v ∧ v ≤ 31) ∧ (c = 72 → 0 ≤ v ∧ v ≤ 23) ∧
+      (c = 77 → 0 ≤ v ∧ v ≤ 59) ∧ (c = 83 → 0 ≤ v ∧ v ≤ 60) ∧ ((c = 85 ∨ c = 87) → 0 ≤ v ∧ v ≤ 53) ∧
+      (c = 117 → 1 ≤ v ∧ v ≤ 7) ∧ (c = 119 → 0 ≤ v ∧ v ≤ 6) ∧ (c = 52 → -999 ≤ v ∧ v ≤ 9999) ∧ (c = 89 → inI64 v)
+
+/-- the sub-second reader: digits beyond femtoseconds are dropped, not rounded -/
+def subseconds_statement : Prop :=
+  ∀ (dp rest : Bytes) (v : Int), parseSubSeconds dp = some (rest, v) →
+    0 ≤ v ∧ v < 1000000000000000 ∧
+    ∃ ds, dp = ds ++ rest ∧ ds ≠ [] ∧ (∀ c ∈ ds, isDigit c = true) ∧ (rest.headD 0 |> isDigit) = false ∧
+      v = numVal (ds.take 15) * 10 ^ (15 - (ds.take 15).length)
+
+/-- the offset reader accepts only ±hh[[:]mm[[:]ss]] with hh ≤ 23, mm, ss ≤ 59 (or Z/z) -/
+def offset_statement : Prop :=
+  ∀ (dp rest : Bytes) (sep : UInt8) (off : Int), parseOffset dp sep = some (rest, off) →
+    -86400 < off ∧ off < 86400
+
+/-- with %s everything else is ignored and the value is returned as is, with zero sub-seconds -/
+def percent_s_statement : Prop :=
+  ∀ (z : Tz.Zone) (t : Int), inI64 t →
+    (parse (fun _ _ _ => none) (ofString "%s") (decInt t) z).val.1 = .ok t 0
+
+/-- no (format, input) pair makes the specifier loop run out of fuel: it always ends with the input
+rejected or the whole format consumed -/
+def parse_safe_statement : Prop :=
+  ∀ (sp : Strptime) (fmt input : Bytes), 
+    let st := specLoop sp (fmt.length + input.length + 2) { data := some (skipSpace (cstr input)), fmt := cstr fmt }
+    st.data = none ∨ st.fmt = []
+
+/-- the extracted bounds are the documented ones -/
+def constants_statement : Prop :=
+  Gen.parse_m = (2, 1, 12) ∧ Gen.parse_d = (2, 1, 31) ∧ Gen.parse_e = (2, 1, 31) ∧ Gen.parse_H = (2, 0, 23) ∧
+  Gen.parse_M = (2, 0, 59) ∧ Gen.parse_S = (2, 0, 60) ∧ Gen.parse_U = (0, 0, 53) ∧ Gen.parse_W = (0, 0, 53) ∧
+  Gen.parse_u = (0, 1, 7) ∧ Gen.parse_w = (0, 0, 6) ∧ Gen.parse_E4Y = (4, -999, 9999) ∧
+  Gen.parseOff_hours = (2, 0, 23) ∧ Gen.parseOff_minutes = (2, 0, 59) ∧ Gen.parseOff_seconds = (2, 0, 59)
+
 end Cctz.C09
